@@ -572,15 +572,17 @@ func ConvertSliceValueType(destTyp reflect.Type, v reflect.Value) (reflect.Value
 func findField(name string, typ reflect.Type) (int, error) {
 	for i := 0; i < typ.NumField(); i++ {
 		str := typ.Field(i).Name
-		if strings.Compare(str, name) == 0 {
+		if str == name {
 			return i, nil
 		}
-		str1 := capitalizeName(name)
-		if strings.Compare(str, str1) == 0 {
+		// the wire name with its first letter capitalized, compared in place (a
+		// name from the wire may be 64K long and is looked up once per instance)
+		if len(str) == len(name) && len(name) > 0 && name[0] >= 'a' && name[0] <= 'z' &&
+			str[0] == name[0]-_asciiGap && str[1:] == name[1:] {
 			return i, nil
 		}
 	}
-	return 0, errors.New("no field " + name)
+	return 0, errors.New("no field " + clipName(name))
 }
 
 // SetValue set the value to dest.
